@@ -29,6 +29,19 @@ def one_trace(rng, tid, prop):
             al = rec.do("align", [a, other], fn="align_polynomials", prop="C04")
             if al:
                 a = al[0]
+        if len(shape) >= 2 and rng.random() < 0.4:
+            # an array whose axes are permuted in memory (a view, not C-contiguous)
+            from ..actions import gather_map
+            fn, p = rng.choice([("T", {}), ("transpose_method", {"axes": list(reversed(range(len(shape))))}),
+                                ("moveaxis", {"source": 0, "destination": -1})])
+            params = {"fn": fn, "p": p, "spelling": "numpy" if fn == "moveaxis" else "numpoly"}
+            if fn == "moveaxis":
+                params["fn"] = "transpose_method"
+                params["p"] = {"axes": list(range(1, len(shape))) + [0]}
+                params["spelling"] = "numpoly"
+            v = rec.do("move", [a], gather=gather_map(params, [tuple(shape)]), model=[], prop="C09", **params)
+            if v:
+                a = v[0]
         for _ in range(rng.randint(2, 4)):
             c = rng.random()
             if c < 0.45:
